@@ -1209,6 +1209,14 @@ func (w *World) helperResult(call *ssa.Call, idx int, st *pathState, eval func(s
 	if !complete || len(vals) != 1 {
 		return nil
 	}
+	// a parameter handed back is the caller's argument
+	if pr, ok := vals[0].(*ssa.Parameter); ok {
+		for j, q := range cal.Params {
+			if q == pr {
+				return w.resolveValue(call.Common().Args[j], st, eval, depth+1)
+			}
+		}
+	}
 	return vals[0]
 }
 
